@@ -1,23 +1,45 @@
 (* TrainP.v — property C11: the training loop as a state machine.
 
-   forward pass (FC -> activation -> loss), back-propagation, SGD update of weight and bias,
-   ResetGradContext(true) on the two new tensors; repeated over a list of batches.
+   The loop body [train_iter]: forward pass of the model  FC -> activation -> loss  ([forward_loss],
+   5 activations x 3 losses; MSE/BCE see the [B,O] prediction through Flatten(0)), back-propagation
+   [bp_topo] from the loss, SGD update of weight and bias, ResetGradContext(true) on the two new
+   tensors.  [train] iterates it over a list of batches (node ids of input and target).
 
-   1. [sgd_update_spec], [sgd_update_nograd], [sgd_update_nil]      the optimizer step, w - lr * g
-   2. [reset_fresh]                                                 ResetGradContext(true)
-   3. [spent_forward_untracked]                                     a spent weight/bias poisons the loss
-   4. [missing_reset_errors], [train_iter_spent], [noreset_next_errors]
-   5. [iter_no_leak]                                                one iteration
-   6. [train_trajectory]                                            any number of iterations ([Traj])
-   7. examples on the throw-away [Scalar Z] of CompP
+   PART I — wiring (any scalar type, any rd, any eps/ome/lr, any activation and loss)
+     1. [sgd_update_spec] (w - lr * g element-wise), [sgd_update_nograd], [sgd_update_nil], [sgd_ok_inv]
+     2. [reset_fresh]
+     3. [spent_forward_untracked]: a spent weight or bias makes the loss untracked and spent, so
+        back-propagation from it is the identity
+     4. [train_iter_spent], [missing_reset_errors], [noreset_next_errors]: the next iteration after a
+        forgotten reset returns Err from the update of the weight; heap = what the forward pass left
+     5. [iter_no_leak]: one successful iteration returns two FRESH tensors (tracked, not spent, no
+        gradient, no edges), keeps [hinv], never changes a value, keeps every datum a datum, and the
+        new values are  sgd_val lr (old value) (gradient this back-propagation delivered)
+     6. [train_trajectory]: any number of steps, [Traj] = chain of [train_iter] steps with the
+        gradients [delivers] exposes
+   PART II — shapes.  No lemma "a delivered gradient has the shape of its node" existed; it is proved
+     here for every tracked method the loop uses, generically in the scalar type:
+     [sinv rd h] (values well formed, every back edge shape-sound [edge_ok], gradients shaped),
+     [sinv_unsqueeze/flatten/reduceAlong/scale/pow/math/broadcast/elsel/arith/matmul], [bp_sinv],
+     [forward_loss_sinv], then [iter_shapes] and [train_trajectory_shapes] ([TrajE]: the recurrence
+     w_{k+1}[i] = w_k[i] - lr * G_k[i] element by element, dims and well-formedness kept).
+   PART III — examples on the throw-away [Scalar Z] of CompP.v.
 
-   Everything is generic in the scalar type; the heap hypothesis is [hinv] of StepP.v (back edges
-   point at older tensors and every rule stored at node c reads the gradient of c), which holds in
-   every heap reachable by API calls ([StepP.reachable_hinv]). *)
+   Hypotheses.  [hinv h] (StepP.v: back edges point at older tensors, every rule stored at node c
+   reads the gradient of c) for Part I — it holds in every heap reachable by API calls
+   ([StepP.reachable_hinv]); [sinv rd h] for Part II — [sinv_nil], [sinv_leaf] and the [sinv_*]
+   lemmas build it for heaps made of leaves and the methods above.
+   Findings while stating the theorems:
+   * [datum h x] needs [x < length h]: with the two flags alone an id that does not exist yet is a
+     datum vacuously, and the iteration may allocate it as a tracked tensor.
+   * no hypothesis "the loss is tracked" is needed: if it were not, back-propagation would be the
+     identity, the fresh weight would have no gradient and the update would return Err.
+   * weight and bias may be the same tensor (w = b); nothing above excludes it. *)
 From Coq Require Import List Arith ZArith Bool Lia.
 From Qeep Require Import Model.Scalar Model.Nd Model.Fill Model.Data Model.Valid Model.Api Model.Grad
      Model.Backprop Model.Components.
-From Qeep Require Import Proofs.NdP Proofs.ElemP Proofs.TrackP Proofs.DfsP Proofs.BpFlagsP Proofs.CompP Proofs.StepP.
+From Qeep Require Import Proofs.NdP Proofs.ElemP Proofs.ReshapeP Proofs.BroadcastP Proofs.ReduceP Proofs.ArithP
+     Proofs.TransposeP Proofs.MatMulP Proofs.TrackP Proofs.DfsP Proofs.BpFlagsP Proofs.CompP Proofs.StepP.
 From Qeep Require Proofs.BackpropP.
 Import ListNotations.
 
@@ -180,7 +202,7 @@ Theorem sgd_update_spec (h : heap) (lr : A) (w : nat) nm (wv g : T) :
 Proof.
   intros Hw Wwv Hg Wg Ed.
   destruct (v_unary_spec (UScale lr) g Wg) as (delta & Edl & Hdd & Wd & Hgd).
-  destruct (v_arith_same_dims BiSub wv delta Wwv Wd ltac:(congruence)) as (r & Er & Hdr & Wr & Hgr).
+  destruct (CompP.v_arith_same_dims BiSub wv delta Wwv Wd ltac:(congruence)) as (r & Er & Hdr & Wr & Hgr).
   exists r. unfold sgd_update, sgd_val. rewrite Hw, Hg, Edl. cbn [res_bind]. rewrite Er. cbn [alloc].
   split; [reflexivity|]. split; [reflexivity|]. split; [exact Hdr|]. split; [exact Wr|].
   intros idx Hv. destruct (get_wf A _ _ _ (proj1 Wwv) Hv) as (a & Ea).
@@ -556,10 +578,13 @@ Proof.
   assert (Lb1 : length (h2 ++ [mkNode vW false true None [] None]) = S (length h2))
     by (rewrite app_length; cbn; lia).
   rewrite Lb1 in *.
+  pose proof (extends_length _ _ X1) as L1.
+  assert (A1 : length h2 <> S (length h2)) by lia.
+  assert (A2 : length h <= length h2) by lia.
+  assert (A3 : length h <= S (length h2)) by lia.
   destruct (final_heap h2 vW vB None None) as (LF & OF & NFw & NFb).
   set (HF := h_reset (h_reset ((h2 ++ [mkNode vW false true None [] None]) ++ [mkNode vB false true None [] None])
                               (length h2) true) (S (length h2)) true) in *.
-  pose proof (extends_length _ _ X1) as L1.
   pose proof (fresh_lt h w Fw) as Lw. pose proof (fresh_lt h b Fb) as Lbb.
   (* every old node: h -> h1 by extension, h1 -> h2 by bp_step, h2 -> HF untouched *)
   assert (Old1 : forall i, i < length h -> nth_error h1 i = nth_error h i) by (intros i Hi; apply ext_nth; assumption).
@@ -580,7 +605,7 @@ Proof.
   { rewrite <- Vb. unfold valOf at 2. rewrite nth_error_app1 by lia. fold (valOf h2 b). rewrite V2.
     destruct (acc_eq h h1 b b (Old1 b Lbb)) as (-> & _). reflexivity. }
   split; [eapply fresh_of_nth; exact NFw|]. split; [eapply fresh_of_nth; exact NFb|].
-  split; [lia|]. split; [lia|]. split; [lia|].
+  split; [exact A1|]. split; [exact A2|]. split; [exact A3|].
   split.
   { destruct HI4 as [W4 O4]. split.
     - apply BackpropP.wf_heap_reset, BackpropP.wf_heap_reset. exact W4.
@@ -591,7 +616,7 @@ Proof.
     destruct (acc_eq h2 HF z z (OldF z Lz)) as (_ & TF & DF & _).
     assert (T1' : trackedOf h1 z = false) by congruence.
     destruct (U2 z T1') as [D2 _].
-    split; [lia|]. split; [rewrite TF, T2; exact T1'|]. rewrite DF, D2, D1. exact Dz. }
+    split; [rewrite LF; clear - Lz A2; lia|]. split; [rewrite TF, T2; exact T1'|]. rewrite DF, D2, D1. exact Dz. }
   exists gW, gB. split.
   { exists h1, l, h2, log. auto. }
   split.
@@ -682,11 +707,1122 @@ Qed.
 
 End TrainP.
 
+(* ====================================================================================== *)
+(*  PART II.  "weights keep their shapes": every gradient that back-propagation delivers   *)
+(*  is a well-formed tensor of the shape of its node.                                      *)
+(*                                                                                        *)
+(*  [shp ds g]      g is well formed and has dims ds                                       *)
+(*  [edge_ok]       a back edge is shape-sound (semantic, on every heap with these values) *)
+(*  [sinv rd h]     hinv h, every value well formed, every edge shape-sound, every         *)
+(*                  gradient present has the shape of its node                             *)
+(*  [sinv_*]        each tracked method used by FC / activations / losses keeps [sinv]     *)
+(*  [bp_sinv]       back-propagation keeps [sinv], whatever its outcome                    *)
+(*  [iter_shapes], [train_trajectory_shapes]   the loop                                    *)
+(* ====================================================================================== *)
+
+(* ---------------- II.1 value level ---------------- *)
+Section ShapeV.
+Context {A : Type} {SA : Scalar A}.
+Notation T := (tensor A).
+
+Definition shp (ds : list nat) (g : T) : Prop := wf g /\ dims g = ds.
+
+Lemma shp_self (t : T) : wf t -> shp (dims t) t.
+Proof. intros W. split; [exact W|reflexivity]. Qed.
+
+Lemma un_shp u (t r : T) ds : shp ds t -> v_unary u t = Ok r -> shp ds r.
+Proof.
+  intros [W D] E. destruct (v_unary_spec u t W) as (r' & E' & D' & W' & _).
+  rewrite E' in E. inversion E; subst r'. split; [exact W'|congruence].
+Qed.
+
+Lemma ar_shp b (t u r : T) ds : shp ds t -> shp ds u -> v_arith b t u = Ok r -> shp ds r.
+Proof.
+  intros [Wt Dt] [Wu Du] E. destruct (CompP.v_arith_same_dims b t u Wt Wu ltac:(congruence)) as (r' & E' & D' & W' & _).
+  rewrite E' in E. inversion E; subst r'. split; [exact W'|congruence].
+Qed.
+
+Lemma same_shp b (t u r : T) ds : shp ds t -> wf u -> v_same b t u = Ok r -> shp ds r /\ dims u = ds.
+Proof.
+  intros [Wt Dt] Wu E. destruct (v_same_spec b t u Wt Wu) as [H1 H2].
+  destruct (list_eq_dec Nat.eq_dec (dims t) (dims u)) as [Eq|Ne].
+  - destruct (H1 Eq) as (r' & E' & D' & W' & _). rewrite E' in E. inversion E; subst r'.
+    split; [split; [exact W'|congruence]|congruence].
+  - rewrite (H2 Ne) in E. discriminate.
+Qed.
+
+Lemma apply2_shp (f : A -> A -> A) (t u r : T) ds : shp ds t -> shp ds u -> apply2 f t u = Some r -> shp ds r.
+Proof.
+  intros [Wt Dt] [Wu Du] E. destruct (apply2_spec f t u Wt Wu ltac:(congruence)) as (r' & E' & D' & W' & _).
+  rewrite E' in E. inversion E; subst r'. split; [exact W'|congruence].
+Qed.
+
+Lemma reshape_shp (t r : T) shape : wf t -> v_reshape t shape = Ok r -> shp (natsOf shape) r.
+Proof.
+  intros W E. destruct (v_reshape_spec A t shape W) as [H1 H2].
+  destruct (validateInputDims shape && validateReshape (zdims t) shape).
+  - destruct (H1 eq_refl) as (r' & E' & D' & W' & _). rewrite E' in E. inversion E; subst r'. split; assumption.
+  - rewrite (H2 eq_refl) in E. discriminate.
+Qed.
+
+Lemma unsq_shp (t r : T) dim : wf t -> v_unsqueeze t dim = Ok r ->
+  shp (unsqueezeDims (Z.to_nat dim) (dims t)) r /\ (0 <= dim <= Z.of_nat (length (dims t)))%Z.
+Proof.
+  intros W E. destruct (v_unsqueeze_spec A t dim W) as [H1 H2].
+  destruct (validateUnSqueezeDim dim (zdims t)) eqn:V.
+  - destruct (H1 eq_refl) as (r' & E' & D' & W' & _). rewrite E' in E. inversion E; subst r'.
+    split; [split; assumption|]. apply validateUnSqueezeDim_iff. exact V.
+  - rewrite (H2 eq_refl) in E. discriminate.
+Qed.
+
+Lemma flatten_shp (t r : T) dim : wf t -> v_flatten t dim = Ok r -> wf r.
+Proof.
+  intros W E. destruct (v_flatten_spec A t dim W) as [H1 H2].
+  destruct (validateFlattenDim dim (zdims t)) eqn:V.
+  - destruct (H1 eq_refl) as (r' & E' & D' & W' & _). rewrite E' in E. inversion E; subst r'. exact W'.
+  - rewrite (H2 eq_refl) in E. discriminate.
+Qed.
+
+Lemma bc_shp (t r : T) shape : wf t -> v_broadcast t shape = Ok r ->
+  shp (natsOf shape) r /\ bcompat (dims t) (natsOf shape).
+Proof.
+  intros W E. pose proof (v_broadcast_ok_inv t r shape W E) as (D & Wr & _).
+  split; [split; assumption|].
+  destruct (v_broadcast_spec A t shape W) as [H1 H2].
+  destruct (validateInputDims shape && validateBroadcast (zdims t) shape) eqn:V.
+  - apply validateBroadcast_shape_iff in V as (ns & -> & _ & Hc). rewrite natsOf_of_nat. exact Hc.
+  - rewrite (H2 eq_refl) in E. discriminate.
+Qed.
+
+Lemma red_shp rd (t r : T) dim : wf t -> v_reduceAlong rd t dim = Ok r ->
+  shp (squeezeDims (Z.to_nat dim) (dims t)) r /\ (0 <= dim < Z.of_nat (length (dims t)))%Z.
+Proof.
+  intros W E. destruct (v_reduceAlong_spec rd t dim W) as [H1 H2].
+  destruct (Z_le_dec 0 dim) as [Ha|Ha]; [destruct (Z_lt_dec dim (Z.of_nat (length (dims t)))) as [Hb|Hb]|].
+  - destruct (H1 (conj Ha Hb)) as (r' & E' & _ & D' & W'). rewrite E' in E. inversion E; subst r'.
+    split; [split; assumption|lia].
+  - rewrite H2 in E by lia. discriminate.
+  - rewrite H2 in E by lia. discriminate.
+Qed.
+
+Lemma tr_shp (t r : T) : wf t -> v_transpose t = Ok r ->
+  exists batch m n, dims t = batch ++ [m; n] /\ shp (batch ++ [n; m]) r.
+Proof.
+  intros W E. destruct (v_transpose_spec A t W) as [H1 H2].
+  destruct (le_lt_dec 2 (length (dims t))) as [H|H].
+  - destruct (H1 H) as (batch & m & n & r' & D & E' & D' & W' & _). rewrite E' in E. inversion E; subst r'.
+    exists batch, m, n. split; [exact D|split; assumption].
+  - rewrite (H2 H) in E. discriminate.
+Qed.
+
+Lemma mm_shp (t u r : T) : wf t -> wf u -> v_matmul t u = Ok r ->
+  exists p1 p2 m n k, dims t = p1 ++ [m; n] /\ dims u = p2 ++ [n; k] /\ bcompat2 p1 p2 /\
+    shp (targetBroadcastDims p1 p2 ++ [m; k]) r.
+Proof.
+  intros Wt Wu E. destruct (v_matmul_ok_iff t u Wt Wu) as [[H _] _].
+  destruct (H (ex_intro _ r E)) as (p1 & p2 & m & n & k & E1 & E2 & Hc).
+  destruct (v_matmul_spec t u Wt Wu) as (Hs & _). pose proof (Hs p1 p2 m n k E1 E2 Hc) as Hs'. cbv zeta in Hs'.
+  destruct Hs' as (r' & E' & D' & W' & _). rewrite E' in E. inversion E; subst r'.
+  exists p1, p2, m, n, k. split; [exact E1|]. split; [exact E2|]. split; [exact Hc|]. split; [exact W'|exact D'].
+Qed.
+
+(* equation-first variants, for proof search *)
+Lemma un_shp' u (t r : T) ds : v_unary u t = Ok r -> shp ds t -> shp ds r.
+Proof. intros E H. exact (un_shp u t r ds H E). Qed.
+Lemma ar_shp' b (t u r : T) ds : v_arith b t u = Ok r -> shp ds t -> shp ds u -> shp ds r.
+Proof. intros E H1 H2. exact (ar_shp b t u r ds H1 H2 E). Qed.
+Lemma same_shp' b (t u r : T) ds : v_same b t u = Ok r -> shp ds t -> shp ds u -> shp ds r.
+Proof. intros E H1 [H2 _]. exact (proj1 (same_shp b t u r ds H1 H2 E)). Qed.
+Lemma toZeros_shp (t r : T) ds : toZeros t = Ok r -> shp ds t -> shp ds r.
+Proof. apply un_shp'. Qed.
+
+Lemma sq_at (pre : list nat) d l : squeezeDims (length pre) (pre ++ d :: l) = pre ++ l.
+Proof. unfold squeezeDims. induction pre as [|a pre IH]; cbn; [reflexivity|]. f_equal. exact IH. Qed.
+Lemma unsq_at (pre : list nat) l : unsqueezeDims (length pre) (pre ++ l) = pre ++ 1 :: l.
+Proof. unfold unsqueezeDims. induction pre as [|a pre IH]; cbn; [destruct l; reflexivity|]. f_equal. exact IH. Qed.
+
+(* ---- the Broadcast back edge returns a tensor of the source shape ---- *)
+Lemma redAlong_shp rd (gy g : T) dim ds : shp ds gy -> redAlong rd gy dim = Ok g ->
+  shp (squeezeDims (Z.to_nat dim) ds) g /\ (0 <= dim < Z.of_nat (length ds))%Z.
+Proof. intros [W D] E. unfold redAlong in E. subst ds. eapply red_shp; eauto. Qed.
+
+Lemma bcLead_shp rd : forall n (gy g : T) ds, shp ds gy -> bcLead rd n gy = Ok g -> shp (skipn n ds) g.
+Proof.
+  induction n as [|n IH]; intros gy g ds H E; cbn [bcLead] in E.
+  - inversion E; subst. exact H.
+  - destruct (redAlong rd gy 0%Z) as [g1| |] eqn:E1; cbn [res_bind] in E; try discriminate.
+    destruct (redAlong_shp rd gy g1 0%Z ds H E1) as [H1 _]. cbn in H1.
+    pose proof (IH g1 g _ H1 E) as H2. unfold squeezeDims in H2. cbn [firstn app] in H2.
+    replace (skipn (S n) ds) with (skipn n (skipn 1 ds)); [exact H2|].
+    destruct ds as [|a l]; [destruct n; reflexivity|reflexivity].
+Qed.
+
+Lemma bcDims_shp rd : forall src dst, Forall2 (fun s d => s = d \/ s = 1) src dst ->
+  forall j (gy g : T) pre, length pre = j -> shp (pre ++ dst) gy -> bcDims rd j src dst gy = Ok g -> shp (pre ++ src) g.
+Proof.
+  induction 1 as [|s d src dst Hsd F IH]; intros j gy g pre Hj H E; cbn [bcDims] in E.
+  - inversion E; subst. exact H.
+  - destruct (s =? d) eqn:Esd; cbn [res_bind] in E.
+    + apply Nat.eqb_eq in Esd. subst d.
+      replace (pre ++ s :: src) with ((pre ++ [s]) ++ src) by (rewrite <- app_assoc; reflexivity).
+      apply (IH (S j) gy g (pre ++ [s])); [rewrite app_length; cbn; lia| |exact E].
+      rewrite <- app_assoc. exact H.
+    + apply Nat.eqb_neq in Esd. destruct Hsd as [Hsd|Hsd]; [contradiction|]. subst s.
+      destruct (redAlong rd gy (Z.of_nat j)) as [g1| |] eqn:E1; cbn [res_bind] in E; try discriminate.
+      destruct (v_unsqueeze g1 (Z.of_nat j)) as [g2| |] eqn:E2; cbn [res_bind] in E; try discriminate.
+      destruct (redAlong_shp rd gy g1 (Z.of_nat j) _ H E1) as [[W1 D1] _].
+      rewrite Nat2Z.id in D1. subst j. rewrite sq_at in D1.
+      destruct (unsq_shp g1 g2 _ W1 E2) as [[W2 D2] _]. rewrite Nat2Z.id, D1, unsq_at in D2.
+      replace (pre ++ 1 :: src) with ((pre ++ [1]) ++ src) by (rewrite <- app_assoc; reflexivity).
+      apply (IH (S (length pre)) g2 g (pre ++ [1])); [rewrite app_length; cbn; lia| |exact E].
+      rewrite <- app_assoc. split; assumption.
+Qed.
+
+Lemma bcastBack_shp rd (gy g : T) src dst : shp dst gy -> bcompat src dst -> bcastBack rd gy src dst = Ok g -> shp src g.
+Proof.
+  intros H [Hl F] E. unfold bcastBack in E.
+  destruct (bcLead rd (length dst - length src) gy) as [g1| |] eqn:E1; cbn [res_bind] in E; try discriminate.
+  pose proof (bcLead_shp rd _ gy g1 dst H E1) as H1.
+  apply (bcDims_shp rd src _ F 0 g1 g [] eq_refl H1 E).
+Qed.
+
+(* ---- the MatMul back edges ---- *)
+Lemma mmA_shp (gy bv bt g : T) tb m n k : shp (tb ++ [m; k]) gy -> shp (tb ++ [n; k]) bv ->
+  v_transpose bv = Ok bt -> v_matmul gy bt = Ok g -> shp (tb ++ [m; n]) g.
+Proof.
+  intros [Wg Dg] [Wb Db] Et Em.
+  destruct (tr_shp bv bt Wb Et) as (batch & m' & n' & Db' & [Wt Dt]).
+  rewrite Db in Db'. apply snoc2_inj in Db' as (<- & <- & <-).
+  destruct (mm_shp gy bt g Wg Wt Em) as (p1 & p2 & m1 & n1 & k1 & D1 & D2 & _ & [Wr Dr]).
+  rewrite Dg in D1. apply snoc2_inj in D1 as (<- & <- & <-).
+  rewrite Dt in D2. apply snoc2_inj in D2 as (<- & _ & <-).
+  rewrite targetBroadcastDims_same in Dr. split; assumption.
+Qed.
+
+Lemma mmB_shp (gy av at_ g : T) tb m n k : shp (tb ++ [m; k]) gy -> shp (tb ++ [m; n]) av ->
+  v_transpose av = Ok at_ -> v_matmul at_ gy = Ok g -> shp (tb ++ [n; k]) g.
+Proof.
+  intros [Wg Dg] [Wa Da] Et Em.
+  destruct (tr_shp av at_ Wa Et) as (batch & m' & n' & Da' & [Wt Dt]).
+  rewrite Da in Da'. apply snoc2_inj in Da' as (<- & <- & <-).
+  destruct (mm_shp at_ gy g Wt Wg Em) as (p1 & p2 & m1 & n1 & k1 & D1 & D2 & _ & [Wr Dr]).
+  rewrite Dt in D1. apply snoc2_inj in D1 as (<- & <- & <-).
+  rewrite Dg in D2. apply snoc2_inj in D2 as (<- & _ & <-).
+  rewrite targetBroadcastDims_same in Dr. split; assumption.
+Qed.
+
+End ShapeV.
+
+(* ---------------- II.2 the invariant and the tracked methods ---------------- *)
+Section ShapeH.
+Context {A : Type} {SA : Scalar A}.
+Notation T := (tensor A).
+Notation heap := (@heap A).
+Notation node := (@node A).
+Notation rule := (@rule A).
+Notation hres := (@hres A).
+Variable rd : bred.
+
+Definition Dm (h : heap) (i : nat) : list nat := match valOf h i with Some v => dims v | None => [] end.
+
+(* back edge e of node c is shape-sound: whenever the gradient of c (if any) has the shape of c,
+   the rule, if it evaluates, returns a well-formed tensor of the shape of its target.  Only
+   the values of nodes up to c matter. *)
+Definition edge_ok (h : heap) (c : nat) (e : nat * rule) : Prop :=
+  forall (hh : heap) g, (forall i, i <= c -> valOf hh i = valOf h i) ->
+    (forall gy, gradOf hh c = Some gy -> shp (Dm h c) gy) ->
+    eval_rule rd hh (snd e) = Ok g -> shp (Dm h (fst e)) g.
+
+Definition sinv (h : heap) : Prop :=
+  hinv h /\ (forall i v, valOf h i = Some v -> wf v) /\
+  (forall c e, In e (edgesOf h c) -> edge_ok h c e) /\
+  (forall i g, gradOf h i = Some g -> shp (Dm h i) g).
+
+Lemma Dm_val (h : heap) i v : valOf h i = Some v -> Dm h i = dims v.
+Proof. intros E. unfold Dm. rewrite E. reflexivity. Qed.
+
+Lemma Dm_app (h l : heap) i : i < length h -> Dm (h ++ l) i = Dm h i.
+Proof. intros Hi. unfold Dm. rewrite valOf_app by exact Hi. reflexivity. Qed.
+
+Lemma edge_ok_ext (h l : heap) c e : edge_ok h c e -> c < length h -> fst e < length h -> edge_ok (h ++ l) c e.
+Proof.
+  intros H Hc He hh g Hv Hg E. rewrite Dm_app by exact He. apply (H hh g).
+  - intros i Hi. rewrite Hv by exact Hi. apply valOf_app. lia.
+  - intros gy Hgy. rewrite <- (Dm_app h l c Hc). apply Hg. exact Hgy.
+  - exact E.
+Qed.
+
+Lemma nth_snoc_cases {X} (h : list X) n c n' : nth_error (h ++ [n]) c = Some n' ->
+  (c < length h /\ nth_error h c = Some n') \/ (c = length h /\ n' = n).
+Proof.
+  intros E. destruct (Nat.lt_ge_cases c (length h)) as [Hlt|Hge].
+  - left. split; [exact Hlt|]. rewrite nth_error_app1 in E by exact Hlt. exact E.
+  - right. assert (c < length (h ++ [n])) by (apply nth_error_Some; congruence).
+    rewrite app_length in H. cbn in H. assert (c = length h) by lia. subst c.
+    rewrite nth_error_snoc_new in E. inversion E. auto.
+Qed.
+
+Lemma sinv_snoc (h : heap) (n : node) : sinv h -> wf (nval n) -> ngrad n = None ->
+  (forall e, In e (nedges n) ->
+     fst e < length h /\ BackpropP.rule_y (snd e) = length h /\ edge_ok (h ++ [n]) (length h) e) ->
+  sinv (h ++ [n]).
+Proof.
+  intros ([W O] & Vw & Ek & Gk) Wn Gn Hn. split; [split|split; [|split]].
+  - intros c n' e Hc He. apply nth_snoc_cases in Hc as [[Hlt Hc]|[-> ->]].
+    + eapply W; eauto.
+    + apply (Hn e He).
+  - intros c n' e Hc He. apply nth_snoc_cases in Hc as [[Hlt Hc]|[-> ->]].
+    + eapply O; eauto.
+    + apply (Hn e He).
+  - intros i v Hv. unfold valOf in Hv. destruct (nth_error (h ++ [n]) i) as [n'|] eqn:En; [|discriminate].
+    cbn in Hv. inversion Hv; subst v. apply nth_snoc_cases in En as [[Hlt Hc]|[-> ->]]; [|exact Wn].
+    apply (Vw i). unfold valOf. rewrite Hc. reflexivity.
+  - intros c e He. unfold edgesOf in He. destruct (nth_error (h ++ [n]) c) as [n'|] eqn:En; [|destruct He].
+    apply nth_snoc_cases in En as [[Hlt Hc]|[-> ->]]; [|apply (Hn e He)].
+    assert (He' : In e (edgesOf h c)) by (unfold edgesOf; rewrite Hc; exact He).
+    apply edge_ok_ext; [apply Ek; exact He'|exact Hlt|].
+    pose proof (W c n' e Hc He). lia.
+  - intros i g Hg. unfold gradOf in Hg. destruct (nth_error (h ++ [n]) i) as [n'|] eqn:En; [|discriminate].
+    cbn in Hg. apply nth_snoc_cases in En as [[Hlt Hc]|[-> ->]]; [|congruence].
+    rewrite Dm_app by exact Hlt. apply Gk. unfold gradOf. rewrite Hc. exact Hg.
+Qed.
+
+(* reading a rule evaluation backwards *)
+Lemma gy_ok (hh : heap) y g : gy_of hh y = Ok g -> gradOf hh y = Some g.
+Proof. unfold gy_of. destruct (gradOf hh y); cbn; intros E; inversion E; reflexivity. Qed.
+Lemma val_ok (hh : heap) x v : val_of hh x = Ok v -> valOf hh x = Some v.
+Proof. unfold val_of. destruct (valOf hh x); cbn; intros E; inversion E; reflexivity. Qed.
+
+End ShapeH.
+
+Ltac inv_res E :=
+  repeat (cbn [res_bind] in E;
+          match type of E with
+          | res_bind ?r _ = Ok _ =>
+              let t := fresh "t" in let Et := fresh "Et" in
+              destruct r as [t| |] eqn:Et; [|discriminate E|discriminate E]
+          end);
+  cbn [res_bind] in E.
+
+(* normalise [gy_of]/[val_of] equations against known values *)
+Ltac norm_reads :=
+  repeat match goal with
+         | H : gy_of _ _ = Ok _ |- _ => apply gy_ok in H
+         | H : val_of _ _ = Ok _ |- _ => apply val_ok in H
+         end;
+  repeat match goal with
+         | H : valOf ?hh ?x = Some ?v, K : valOf ?hh ?x = Some ?w |- _ =>
+             assert (v = w) by congruence; subst v; clear H
+         end.
+
+Section ShapeOps.
+Context {A : Type} {SA : Scalar A}.
+Notation T := (tensor A).
+Notation heap := (@heap A).
+Notation node := (@node A).
+Notation rule := (@rule A).
+Notation hres := (@hres A).
+Variable rd : bred.
+
+(* one-operand methods: the new value is well formed and the single back edge is shape-sound *)
+Lemma sinv_op1 (h : heap) x f mk nm h' id :
+  sinv rd h -> h_op1 h x f mk nm = (h', Ok id) ->
+  BackpropP.rule_y (mk (length h)) = length h ->
+  (forall xv v, valOf h x = Some xv -> wf xv -> f xv = Ok v ->
+     wf v /\
+     forall (hh : heap) g, valOf hh x = Some xv -> valOf hh (length h) = Some v ->
+       (forall gy, gradOf hh (length h) = Some gy -> shp (dims v) gy) ->
+       eval_rule rd hh (mk (length h)) = Ok g -> shp (dims xv) g) ->
+  sinv rd h'.
+Proof.
+  intros S E Hy Hf. apply h_op1_inv in E as (xv & v & Hx & Hfv & -> & ->).
+  pose proof (valOf_some_lt h x xv Hx) as Lx.
+  destruct S as (HI & Vw & Ek & Gk). destruct (Hf xv v Hx (Vw x xv Hx) Hfv) as [Wv Hr].
+  apply sinv_snoc; [split; [exact HI|split; [exact Vw|split; assumption]]|exact Wv|reflexivity|].
+  intros e He. apply ctxNode_edges_incl in He. destruct He as [<-|[]]. cbn [fst snd].
+  split; [exact Lx|]. split; [exact Hy|].
+  intros hh g Hv Hg Ev. cbn [fst snd] in *.
+  set (n := ctxNode v (mkCtx h [x] [(x, mk (length h))]) nm) in *.
+  assert (Vn : valOf (h ++ [n]) (length h) = Some v) by (rewrite valOf_new; reflexivity).
+  assert (Vx : valOf (h ++ [n]) x = Some xv) by (rewrite valOf_app by exact Lx; exact Hx).
+  rewrite (Dm_val _ _ _ Vx). apply (Hr hh g).
+  - rewrite Hv by lia. exact Vx.
+  - rewrite Hv by lia. exact Vn.
+  - intros gy Hgy. rewrite <- (Dm_val _ _ _ Vn). apply Hg. exact Hgy.
+  - exact Ev.
+Qed.
+
+(* ---- shape soundness of the individual rules, on any heap [hh] ---- *)
+Lemma rreshape_ok (hh : heap) y x xv ds g : valOf hh x = Some xv ->
+  (forall gy, gradOf hh y = Some gy -> shp ds gy) -> eval_rule rd hh (RReshape y x) = Ok g -> shp (dims xv) g.
+Proof.
+  intros Vx Hg Ev. cbn [eval_rule] in Ev. inv_res Ev. norm_reads.
+  destruct (Hg _ Et) as [Wt _]. pose proof (reshape_shp _ _ _ Wt Ev) as H.
+  unfold zdims in H. rewrite natsOf_of_nat in H. exact H.
+Qed.
+
+Lemma redB_shp (gy xv g : T) dim : wf gy -> reducerBroadcasted gy xv dim = Ok g -> shp (dims xv) g.
+Proof.
+  intros Wg E. unfold reducerBroadcasted in E. inv_res E.
+  destruct (unsq_shp gy t dim Wg Et) as [[Wt _] _].
+  destruct (bc_shp t g _ Wt E) as [H _]. unfold zdims in H. rewrite natsOf_of_nat in H. exact H.
+Qed.
+
+Lemma rsum_ok (hh : heap) y x dim xv ds g : valOf hh x = Some xv ->
+  (forall gy, gradOf hh y = Some gy -> shp ds gy) -> eval_rule rd hh (RSumAlong y x dim) = Ok g -> shp (dims xv) g.
+Proof.
+  intros Vx Hg Ev. cbn [eval_rule] in Ev. inv_res Ev. norm_reads.
+  destruct (Hg _ Et) as [Wt _]. eapply redB_shp; eauto.
+Qed.
+
+Lemma ravg_ok (hh : heap) y x dim xv ds g : valOf hh x = Some xv ->
+  (forall gy, gradOf hh y = Some gy -> shp ds gy) -> eval_rule rd hh (RAvgAlong y x dim) = Ok g -> shp (dims xv) g.
+Proof.
+  intros Vx Hg Ev. cbn [eval_rule] in Ev. inv_res Ev. norm_reads.
+  destruct (Hg _ Et) as [Wt _]. eapply un_shp; [|exact Ev]. eapply redB_shp; eauto.
+Qed.
+
+Lemma sinv_unsqueeze (h : heap) x dim nm h' id : sinv rd h -> h_unsqueeze h x dim nm = (h', Ok id) -> sinv rd h'.
+Proof.
+  intros S E. eapply sinv_op1; [exact S|exact E|reflexivity|].
+  intros xv v Hx Wx Hf. destruct (unsq_shp xv v dim Wx Hf) as [[Wv _] _]. split; [exact Wv|].
+  intros hh g Vx Vy Hg Ev. eapply rreshape_ok; eauto.
+Qed.
+
+Lemma sinv_flatten (h : heap) x dim nm h' id : sinv rd h -> h_flatten h x dim nm = (h', Ok id) -> sinv rd h'.
+Proof.
+  intros S E. eapply sinv_op1; [exact S|exact E|reflexivity|].
+  intros xv v Hx Wx Hf. split; [exact (flatten_shp xv v dim Wx Hf)|].
+  intros hh g Vx Vy Hg Ev. eapply rreshape_ok; eauto.
+Qed.
+
+Lemma sinv_reduceAlong (h : heap) r x dim nm h' id : r = RdSum \/ r = RdAvg \/ r = RdMean ->
+  sinv rd h -> h_reduceAlong h r x dim nm = (h', Ok id) -> sinv rd h'.
+Proof.
+  intros Hr S E. eapply sinv_op1; [exact S|exact E|destruct r; reflexivity|].
+  intros xv v Hx Wx Hf. destruct (red_shp r xv v dim Wx Hf) as [[Wv _] _]. split; [exact Wv|].
+  intros hh g Vx Vy Hg Ev.
+  destruct Hr as [->|[->| ->]]; cbn [alongRule] in Ev; [eapply rsum_ok|eapply ravg_ok|eapply ravg_ok]; eauto.
+Qed.
+
+(* element-wise methods: every tensor in sight has the shape of the operand *)
+Ltac elem := unfold toZeros, toOnes in *; eauto 12 using un_shp', ar_shp', same_shp'.
+
+Lemma sinv_elem1 (h : heap) x (u : unary) mk nm h' id :
+  BackpropP.rule_y (mk (length h)) = length h ->
+  (forall (hh : heap) xv v g, valOf hh x = Some xv -> valOf hh (length h) = Some v ->
+     shp (dims xv) xv -> shp (dims xv) v ->
+     (forall gy, gradOf hh (length h) = Some gy -> shp (dims xv) gy) ->
+     eval_rule rd hh (mk (length h)) = Ok g -> shp (dims xv) g) ->
+  sinv rd h -> h_op1 h x (v_unary u) mk nm = (h', Ok id) -> sinv rd h'.
+Proof.
+  intros Hy Hr S E. eapply sinv_op1; [exact S|exact E|exact Hy|].
+  intros xv v Hx Wx Hf. pose proof (un_shp u xv v _ (shp_self xv Wx) Hf) as [Wv Dv]. split; [exact Wv|].
+  intros hh g Vx Vy Hg Ev. apply (Hr hh xv v g Vx Vy (shp_self xv Wx) (conj Wv Dv)); [|exact Ev].
+  intros gy Hgy. rewrite <- Dv. apply Hg. exact Hgy.
+Qed.
+
+Lemma sinv_scale (h : heap) x a nm h' id : sinv rd h -> h_scale h x a nm = (h', Ok id) -> sinv rd h'.
+Proof.
+  apply sinv_elem1; [reflexivity|].
+  intros hh xv v g Vx Vy Sx Sv Hg Ev. cbn [eval_rule] in Ev. inv_res Ev. norm_reads. pose proof (Hg _ Et). elem.
+Qed.
+
+Lemma sinv_pow (h : heap) x a az nm h' id : sinv rd h -> h_pow h x a az nm = (h', Ok id) -> sinv rd h'.
+Proof.
+  apply sinv_elem1; [reflexivity|].
+  intros hh xv v g Vx Vy Sx Sv Hg Ev. cbn [eval_rule] in Ev. inv_res Ev. norm_reads. pose proof (Hg _ Et).
+  destruct az; [elem|]. inv_res Ev. elem.
+Qed.
+
+Lemma sinv_math (h : heap) fn x nm h' id : sinv rd h -> h_math h fn x nm = (h', Ok id) -> sinv rd h'.
+Proof.
+  apply sinv_elem1; [destruct fn; reflexivity|].
+  intros hh xv v g Vx Vy Sx Sv Hg Ev.
+  destruct fn; cbn [mathRule eval_rule] in Ev; inv_res Ev; norm_reads;
+    match goal with Et : gradOf hh (length h) = Some _ |- _ => pose proof (Hg _ Et) end; elem.
+Qed.
+
+(* Broadcast *)
+Lemma sinv_broadcast (h : heap) x shape nm h' id : sinv rd h -> h_broadcast h x shape nm = (h', Ok id) -> sinv rd h'.
+Proof.
+  intros S E. eapply sinv_op1; [exact S|exact E|reflexivity|].
+  intros xv v Hx Wx Hf. destruct (bc_shp xv v shape Wx Hf) as [[Wv Dv] Hc]. split; [exact Wv|].
+  intros hh g Vx Vy Hg Ev. cbn [eval_rule] in Ev. inv_res Ev. norm_reads.
+  eapply bcastBack_shp; [apply Hg; exact Et| |exact Ev]. rewrite Dv. exact Hc.
+Qed.
+
+(* two-operand nodes *)
+Lemma sinv_op2 (h : heap) a1 a2 (v1 v2 v : T) es nm :
+  sinv rd h -> valOf h a1 = Some v1 -> valOf h a2 = Some v2 -> wf v ->
+  (forall e, In e es -> (fst e = a1 \/ fst e = a2) /\ BackpropP.rule_y (snd e) = length h /\
+     forall (hh : heap) g, valOf hh a1 = Some v1 -> valOf hh a2 = Some v2 -> valOf hh (length h) = Some v ->
+       (forall gy, gradOf hh (length h) = Some gy -> shp (dims v) gy) ->
+       eval_rule rd hh (snd e) = Ok g -> shp (Dm h (fst e)) g) ->
+  sinv rd (h ++ [ctxNode v (mkCtx h [a1; a2] es) nm]).
+Proof.
+  intros S V1 V2 Wv He.
+  pose proof (valOf_some_lt h a1 v1 V1) as L1. pose proof (valOf_some_lt h a2 v2 V2) as L2.
+  apply sinv_snoc; [exact S|exact Wv|reflexivity|].
+  intros e Hin. apply ctxNode_edges_incl in Hin. destruct (He e Hin) as (Hf & Hy & Hr).
+  assert (Lf : fst e < length h) by (destruct Hf as [-> | ->]; assumption).
+  split; [exact Lf|]. split; [exact Hy|].
+  set (n := ctxNode v (mkCtx h [a1; a2] es) nm).
+  intros hh g Hv Hg Ev. rewrite Dm_app by exact Lf.
+  assert (Vn : valOf (h ++ [n]) (length h) = Some v) by (rewrite valOf_new; reflexivity).
+  apply (Hr hh g).
+  - rewrite Hv by lia. rewrite valOf_app by exact L1. exact V1.
+  - rewrite Hv by lia. rewrite valOf_app by exact L2. exact V2.
+  - rewrite Hv by lia. exact Vn.
+  - intros gy Hgy. rewrite <- (Dm_val _ _ _ Vn). apply Hg. exact Hgy.
+  - exact Ev.
+Qed.
+
+Lemma sinv_elsel (h : heap) b x u nm h' id : sinv rd h -> h_elsel h b x u nm = (h', Ok id) -> sinv rd h'.
+Proof.
+  intros S E. apply h_elsel_inv in E as (xv & uv & v & Hx & Hu & Hf & -> & ->).
+  pose proof S as (_ & Vw & _).
+  pose proof (Vw x xv Hx) as Wx. pose proof (Vw u uv Hu) as Wu.
+  destruct (same_shp b xv uv v _ (shp_self xv Wx) Wu Hf) as [Sv Du].
+  assert (Sx : shp (dims xv) xv) by (apply shp_self; exact Wx).
+  assert (Su : shp (dims xv) uv) by (split; assumption).
+  apply (sinv_op2 h x u xv uv v); [exact S|exact Hx|exact Hu|exact (proj1 Sv)|].
+  intros e [<-|[<-|[]]]; cbn [fst snd]; (split; [auto|]); (split; [reflexivity|]);
+    intros hh g V1 V2 Vy Hg Ev; cbn [eval_rule] in Ev; inv_res Ev; norm_reads.
+  - rewrite (Dm_val _ _ _ Hx). pose proof (Hg _ Et) as Sg. rewrite (proj2 Sv) in Sg. elem.
+  - rewrite (Dm_val _ _ _ Hu), Du. pose proof (Hg _ Et) as Sg. rewrite (proj2 Sv) in Sg. elem.
+Qed.
+
+(* the two internal Broadcast nodes of a binary operator *)
+Lemma bcast2_sinv (h : heap) x u s1 s2 h2 b1 b2 : sinv rd h -> u < length h -> h_bcast2 h x u s1 s2 = (h2, Ok (b1, b2)) ->
+  sinv rd h2 /\ exists xv uv v1 v2, valOf h x = Some xv /\ valOf h u = Some uv /\
+    v_broadcast xv s1 = Ok v1 /\ v_broadcast uv s2 = Ok v2 /\
+    valOf h2 b1 = Some v1 /\ valOf h2 b2 = Some v2 /\ b1 < length h2 /\ b2 < length h2.
+Proof.
+  intros S Lu E. unfold h_bcast2 in E.
+  destruct (h_broadcast h x s1 None) as [h1 [c1| |]] eqn:E1; try discriminate.
+  destruct (h_broadcast h1 u s2 None) as [h2' [c2| |]] eqn:E2; try discriminate.
+  inversion E; subst h2' c1 c2. clear E.
+  pose proof (sinv_broadcast _ _ _ _ _ _ S E1) as S1. pose proof (sinv_broadcast _ _ _ _ _ _ S1 E2) as S2.
+  split; [exact S2|].
+  apply h_op1_inv in E1 as (xv & v1 & Hx & Hv1 & -> & ->).
+  apply h_op1_inv in E2 as (uv & v2 & Hu & Hv2 & -> & ->).
+  pose proof (valOf_some_lt h x xv Hx) as Lx.
+  exists xv, uv, v1, v2. split; [exact Hx|]. split.
+  { rewrite valOf_app in Hu by exact Lu. exact Hu. }
+  split; [exact Hv1|]. split; [exact Hv2|].
+  split; [rewrite valOf_app by (rewrite app_length; cbn; lia); rewrite valOf_new; reflexivity|].
+  split; [rewrite valOf_new; reflexivity|]. rewrite !app_length. cbn. lia.
+Qed.
+
+Ltac grad_fact Hg Sg :=
+  match goal with Eg : gradOf _ _ = Some ?gy |- _ => pose proof (Hg _ Eg) as Sg end.
+
+Lemma sinv_arith (h : heap) b x u nm h' id : sinv rd h -> h_arith h b x u nm = (h', Ok id) -> sinv rd h'.
+Proof.
+  intros S E. unfold h_arith in E.
+  destruct (valOf h x) as [xv|] eqn:Hx; [|discriminate]. destruct (valOf h u) as [uv|] eqn:Hu; [|discriminate].
+  set (shape := map Z.of_nat (targetBroadcastDims (dims xv) (dims uv))) in E.
+  unfold h_binop in E. destruct (h_bcast2 h x u shape shape) as [h2 [[b1 b2]| |]] eqn:EB; try discriminate.
+  destruct (bcast2_sinv h x u shape shape h2 b1 b2 S (valOf_some_lt _ _ _ Hu) EB)
+    as (S2 & xv' & uv' & v1 & v2 & Hx' & Hu' & B1 & B2 & V1 & V2 & L1 & L2).
+  rewrite V1, V2 in E. destruct (apply2 (binaryF b) v1 v2) as [v|] eqn:Ef; [|discriminate].
+  rewrite alloc_eq in E. inversion E; subst h' id. clear E.
+  pose proof S as (_ & Vw & _).
+  assert (xv' = xv) by congruence. assert (uv' = uv) by congruence. subst xv' uv'.
+  destruct (bc_shp xv v1 shape (Vw _ _ Hx) B1) as [S1 _]. destruct (bc_shp uv v2 shape (Vw _ _ Hu) B2) as [Sv2 _].
+  pose proof (apply2_shp _ v1 v2 v _ S1 Sv2 Ef) as Sv.
+  apply (sinv_op2 h2 b1 b2 v1 v2 v); [exact S2|exact V1|exact V2|exact (proj1 Sv)|].
+  intros e He.
+  destruct b; cbn [arithEdges] in He; try contradiction; destruct He as [<-|[<-|[]]]; cbn [fst snd];
+    (split; [auto|]); (split; [reflexivity|]);
+    intros hh g W1 W2 Vy Hg Ev; cbn [eval_rule] in Ev; inv_res Ev; norm_reads; grad_fact Hg Sg;
+    rewrite (proj2 Sv) in Sg;
+    first [rewrite (Dm_val _ _ _ V1), (proj2 S1)|rewrite (Dm_val _ _ _ V2), (proj2 Sv2)]; elem.
+Qed.
+
+Lemma mmShape_l p1 p2 m n n' k :
+  mmShape (targetBroadcastDims (p1 ++ [m; n]) (p2 ++ [n'; k])) (p1 ++ [m; n]) = targetBroadcastDims p1 p2 ++ [m; n].
+Proof.
+  rewrite tbd_snoc2. unfold mmShape. rewrite !app_length. cbn [length].
+  replace (length (targetBroadcastDims p1 p2) + 2 - 2) with (length (targetBroadcastDims p1 p2)) by lia.
+  replace (length p1 + 2 - 2) with (length p1) by lia.
+  rewrite firstn_length_app, skipn_length_app. reflexivity.
+Qed.
+
+Lemma mmShape_r p1 p2 m n n' k :
+  mmShape (targetBroadcastDims (p1 ++ [m; n]) (p2 ++ [n'; k])) (p2 ++ [n'; k]) = targetBroadcastDims p1 p2 ++ [n'; k].
+Proof.
+  rewrite tbd_snoc2. unfold mmShape. rewrite !app_length. cbn [length].
+  replace (length (targetBroadcastDims p1 p2) + 2 - 2) with (length (targetBroadcastDims p1 p2)) by lia.
+  replace (length p2 + 2 - 2) with (length p2) by lia.
+  rewrite firstn_length_app, skipn_length_app. reflexivity.
+Qed.
+
+Lemma sinv_matmul (h : heap) x u nm h' id : sinv rd h -> h_matmul h x u nm = (h', Ok id) -> sinv rd h'.
+Proof.
+  intros S E. unfold h_matmul in E.
+  destruct (valOf h x) as [xv|] eqn:Hx; [|discriminate]. destruct (valOf h u) as [uv|] eqn:Hu; [|discriminate].
+  destruct (validateMatMulDims (zdims xv) (zdims uv)) eqn:V; [|discriminate].
+  unfold zdims in V. apply validateMatMul_nat in V as (p1 & p2 & m & n & k & D1 & D2).
+  set (s1 := map Z.of_nat (mmShape (targetBroadcastDims (dims xv) (dims uv)) (dims xv))) in E.
+  set (s2 := map Z.of_nat (mmShape (targetBroadcastDims (dims xv) (dims uv)) (dims uv))) in E.
+  unfold h_binop in E. destruct (h_bcast2 h x u s1 s2) as [h2 [[b1 b2]| |]] eqn:EB; try discriminate.
+  destruct (bcast2_sinv h x u s1 s2 h2 b1 b2 S (valOf_some_lt _ _ _ Hu) EB)
+    as (S2 & xv' & uv' & v1 & v2 & Hx' & Hu' & B1 & B2 & V1 & V2 & L1 & L2).
+  rewrite V1, V2 in E. destruct (matMul v1 v2) as [v|] eqn:Ef; [|discriminate].
+  rewrite alloc_eq in E. inversion E; subst h' id. clear E.
+  pose proof S as (_ & Vw & _).
+  assert (xv' = xv) by congruence. assert (uv' = uv) by congruence. subst xv' uv'.
+  set (tb := targetBroadcastDims p1 p2).
+  destruct (bc_shp xv v1 s1 (Vw _ _ Hx) B1) as [S1 _]. destruct (bc_shp uv v2 s2 (Vw _ _ Hu) B2) as [Sv2 _].
+  unfold s1 in S1. unfold s2 in Sv2. rewrite natsOf_of_nat, D1, D2 in S1, Sv2.
+  rewrite mmShape_l in S1. rewrite mmShape_r in Sv2. fold tb in S1, Sv2.
+  destruct (matMul_spec v1 v2 tb m n k (proj1 S1) (proj1 Sv2) (proj2 S1) (proj2 Sv2)) as (r & Er & Dr & Wr & _).
+  assert (r = v) by congruence. subst r.
+  apply (sinv_op2 h2 b1 b2 v1 v2 v); [exact S2|exact V1|exact V2|exact Wr|].
+  intros e [<-|[<-|[]]]; cbn [fst snd]; (split; [auto|]); (split; [reflexivity|]);
+    intros hh g W1 W2 Vy Hg Ev; cbn [eval_rule] in Ev; inv_res Ev; norm_reads; grad_fact Hg Sg; rewrite Dr in Sg.
+  - rewrite (Dm_val _ _ _ V1), (proj2 S1). eapply mmA_shp; eauto.
+  - rewrite (Dm_val _ _ _ V2), (proj2 Sv2). eapply mmB_shp; eauto.
+Qed.
+
+End ShapeOps.
+
+(* ---------------- II.3 back-propagation ---------------- *)
+Section ShapeBp.
+Context {A : Type} {SA : Scalar A}.
+Notation T := (tensor A).
+Notation heap := (@heap A).
+Notation node := (@node A).
+Notation rule := (@rule A).
+Notation hres := (@hres A).
+Notation idseal := (fun (_ : option nat) (g : T) => g).
+Variable rd : bred.
+
+(* hh has the values and edges of h, and every gradient it holds has the shape of its node *)
+Definition Ginv (h hh : heap) : Prop :=
+  (forall i, valOf hh i = valOf h i) /\ (forall i, edgesOf hh i = edgesOf h i) /\
+  (forall i g, gradOf hh i = Some g -> shp (Dm h i) g).
+
+Lemma Ginv_setGrad (h hh : heap) i g : Ginv h hh -> shp (Dm h i) g -> Ginv h (setGrad hh i (Some g)).
+Proof.
+  intros (V & E & G) Hg. split; [|split].
+  - intros j. rewrite BackpropP.valOf_setGrad. apply V.
+  - intros j. rewrite BackpropP.edgesOf_setGrad. apply E.
+  - intros j g' Hj. rewrite BackpropP.gradOf_setGrad in Hj. destruct (j =? i) eqn:Eji.
+    + apply Nat.eqb_eq in Eji. subst j. destruct (i <? length hh); [|discriminate]. inversion Hj; subst g'. exact Hg.
+    + apply G. exact Hj.
+Qed.
+
+Lemma Ginv_accumulate (h hh : heap) i g hh' r : Ginv h hh -> shp (Dm h i) g ->
+  accumulate hh i g = (hh', r) -> Ginv h hh'.
+Proof.
+  intros GI Hg E. unfold accumulate in E. destruct (gradOf hh i) as [g0|] eqn:E0.
+  - destruct (v_arith BiAdd g0 g) as [s| |] eqn:Es; inversion E; subst; try exact GI.
+    apply Ginv_setGrad; [exact GI|]. eapply ar_shp; [|exact Hg|exact Es]. destruct GI as (_ & _ & G). apply G. exact E0.
+  - inversion E; subst. apply Ginv_setGrad; assumption.
+Qed.
+
+Lemma Ginv_edges (h : heap) c : (forall e, In e (edgesOf h c) -> edge_ok rd h c e) ->
+  forall es, incl es (edgesOf h c) -> forall (hh : heap) r hh' r', Ginv h hh ->
+  fold_left (process_edge rd c) es (hh, r) = (hh', r') -> Ginv h hh'.
+Proof.
+  intros Hok. induction es as [|e es IH]; intros Hin hh r hh' r' GI E; cbn [fold_left] in E.
+  - inversion E; subst. exact GI.
+  - destruct (process_edge rd c (hh, r) e) as [h1 r1] eqn:E1.
+    apply (IH (fun x Hx => Hin x (or_intror Hx)) h1 r1 hh' r'); [|exact E].
+    unfold process_edge in E1. destruct r as [u| |]; [|inversion E1; subst; exact GI|inversion E1; subst; exact GI].
+    destruct (trackedOf hh (fst e)); [|inversion E1; subst; exact GI].
+    destruct (eval_rule rd hh (snd e)) as [g| |] eqn:Ev; [|inversion E1; subst; exact GI|inversion E1; subst; exact GI].
+    eapply Ginv_accumulate; [exact GI| |exact E1].
+    destruct GI as (V & Ed & G). apply (Hok e (Hin e (or_introl eq_refl)) hh g).
+    + intros i _. apply V.
+    + intros gy Hgy. apply (G c gy Hgy).
+    + exact Ev.
+Qed.
+
+Lemma Ginv_node (h : heap) : (forall c e, In e (edgesOf h c) -> edge_ok rd h c e) ->
+  forall (hh : heap) log r c hh' log' r', Ginv h hh ->
+  process_node rd idseal (hh, log, r) c = (hh', log', r') -> Ginv h hh'.
+Proof.
+  intros Hok hh log r c hh' log' r' GI E. unfold process_node in E.
+  destruct r as [u| |]; [|inversion E; subst; exact GI|inversion E; subst; exact GI].
+  destruct (nth_error hh c) as [n|] eqn:En; [|inversion E; subst; exact GI].
+  destruct (ngrad n) as [g|] eqn:Eg; [|inversion E; subst; exact GI].
+  destruct (fold_left (process_edge rd c) (nedges n) (setGrad hh c (Some g), Ok tt)) as [h2 r2] eqn:Ef.
+  inversion E; subst hh' log' r'. clear E.
+  assert (Hgc : gradOf hh c = Some g) by (unfold gradOf; rewrite En; exact Eg).
+  assert (Hec : edgesOf hh c = nedges n) by (unfold edgesOf; rewrite En; reflexivity).
+  pose proof GI as (V & Ed & G).
+  eapply (Ginv_edges h c (Hok c) (nedges n)); [|apply Ginv_setGrad; [exact GI|apply (G c g Hgc)]|exact Ef].
+  rewrite <- Hec, Ed. apply incl_refl.
+Qed.
+
+Lemma Ginv_nodes (h : heap) : (forall c e, In e (edgesOf h c) -> edge_ok rd h c e) ->
+  forall l (hh : heap) log r hh' log' r', Ginv h hh ->
+  fold_left (process_node rd idseal) l (hh, log, r) = (hh', log', r') -> Ginv h hh'.
+Proof.
+  intros Hok. induction l as [|c l IH]; intros hh log r hh' log' r' GI E; cbn [fold_left] in E.
+  - inversion E; subst. exact GI.
+  - destruct (process_node rd idseal (hh, log, r) c) as [[h1 log1] r1] eqn:E1.
+    eapply IH; [|exact E]. eapply Ginv_node; eauto.
+Qed.
+
+(* back-propagation, whatever its outcome, keeps the shape invariant: in particular every
+   gradient it delivers is a well-formed tensor of the shape of its node *)
+Theorem bp_sinv (h : heap) root h' log r : sinv rd h -> bp_topo rd idseal h root = (h', log, r) -> sinv rd h'.
+Proof.
+  intros S E. pose proof S as (HI & Vw & Ek & Gk).
+  assert (GI : Ginv h h').
+  { assert (G0 : Ginv h h) by (split; [|split]; auto).
+    unfold bp_topo in E. destruct (negb (trackedOf h root)); [inversion E; subst; exact G0|].
+    set (order := topoOrder h root) in *. set (h1 := markDirty h order) in *.
+    assert (G1 : Ginv h h1).
+    { split; [|split].
+      - intros i. apply BackpropP.valOf_markDirty.
+      - intros i. apply BackpropP.edgesOf_markDirty.
+      - intros i g Hg. unfold h1 in Hg. rewrite BackpropP.gradOf_markDirty in Hg. apply Gk. exact Hg. }
+    destruct (valOf h1 root) as [rv|] eqn:Ev; [|inversion E; subst; exact G0].
+    assert (Ev0 : valOf h root = Some rv) by (rewrite <- Ev; symmetry; apply (proj1 G1)).
+    destruct (toOnes rv) as [ones| |] eqn:Eo; [|inversion E; subst; exact G1|inversion E; subst; exact G1].
+    assert (So : shp (Dm h root) ones).
+    { rewrite (Dm_val _ _ _ Ev0). eapply un_shp; [|exact Eo]. apply shp_self. eapply Vw; eauto. }
+    destruct (accumulate h1 root ones) as [h2 r2] eqn:Ea.
+    pose proof (Ginv_accumulate h h1 root ones h2 r2 G1 So Ea) as G2.
+    destruct r2 as [u| |]; [|inversion E; subst; exact G2|inversion E; subst; exact G2].
+    eapply Ginv_nodes; [exact Ek|exact G2|exact E]. }
+  destruct GI as (V & Ed & G).
+  assert (DmE : forall i, Dm h' i = Dm h i) by (intros i; unfold Dm; rewrite V; reflexivity).
+  split; [eapply bp_hinv; eauto|]. split; [|split].
+  - intros i v Hv. rewrite V in Hv. eapply Vw; eauto.
+  - intros c e He. rewrite Ed in He. intros hh g Hv Hg Ev. rewrite DmE. apply (Ek c e He hh g).
+    + intros i Hi. rewrite Hv by exact Hi. apply V.
+    + intros gy Hgy. rewrite <- DmE. apply Hg. exact Hgy.
+    + exact Ev.
+  - intros i g Hg. rewrite DmE. apply G. exact Hg.
+Qed.
+
+End ShapeBp.
+
+(* ---------------- II.4 the training loop ---------------- *)
+Section ShapeLoop.
+Context {A : Type} {SA : Scalar A}.
+Notation T := (tensor A).
+Notation heap := (@heap A).
+Notation node := (@node A).
+Notation rule := (@rule A).
+Notation hres := (@hres A).
+Notation idseal := (fun (_ : option nat) (g : T) => g).
+Variable rd : bred.
+
+(* ---- chains of tracked methods keep the shape invariant ---- *)
+Definition oks (hr : hres) (h : heap) : Prop := forall h' id, hr = (h', Ok id) -> sinv rd h -> sinv rd h'.
+
+Lemma oks_bind (h : heap) (r : hres) (f : heap -> nat -> hres) :
+  oks r h -> (forall h1 id, oks (f h1 id) h1) -> oks (hbind r f) h.
+Proof.
+  intros H1 H2 h' id E S. apply hbind_ok in E as (h1 & id1 & E1 & E2).
+  apply (H2 h1 id1 h' id E2). apply (H1 h1 id1 E1 S).
+Qed.
+Lemma oks_atomically (h0 h : heap) (r : hres) : oks r h -> oks (atomically h0 r) h.
+Proof. intros H h' id E. apply atomically_ok in E. exact (H h' id E). Qed.
+Lemma oks_fail (h0 h : heap) (r : res nat) : (forall id, r <> Ok id) -> oks (h0, r) h.
+Proof. intros Hr h' id E. inversion E; subst. exfalso. eapply Hr; reflexivity. Qed.
+
+Lemma oks_unsqueeze h x d nm : oks (h_unsqueeze h x d nm) h.
+Proof. intros h' id E S. eapply sinv_unsqueeze; eauto. Qed.
+Lemma oks_flatten h x d nm : oks (h_flatten h x d nm) h.
+Proof. intros h' id E S. eapply sinv_flatten; eauto. Qed.
+Lemma oks_sum h x d nm : oks (h_reduceAlong h RdSum x d nm) h.
+Proof. intros h' id E S. exact (sinv_reduceAlong rd h RdSum x d nm h' id (or_introl eq_refl) S E). Qed.
+Lemma oks_mean h x d nm : oks (h_reduceAlong h RdMean x d nm) h.
+Proof. intros h' id E S. exact (sinv_reduceAlong rd h RdMean x d nm h' id (or_intror (or_intror eq_refl)) S E). Qed.
+Lemma oks_scale h x a nm : oks (h_scale h x a nm) h.
+Proof. intros h' id E S. eapply sinv_scale; eauto. Qed.
+Lemma oks_pow h x a az nm : oks (h_pow h x a az nm) h.
+Proof. intros h' id E S. eapply sinv_pow; eauto. Qed.
+Lemma oks_math h f x nm : oks (h_math h f x nm) h.
+Proof. intros h' id E S. eapply sinv_math; eauto. Qed.
+Lemma oks_elsel h b x u nm : oks (h_elsel h b x u nm) h.
+Proof. intros h' id E S. eapply sinv_elsel; eauto. Qed.
+Lemma oks_arith h b x u nm : oks (h_arith h b x u nm) h.
+Proof. intros h' id E S. eapply sinv_arith; eauto. Qed.
+Lemma oks_matmul h x u nm : oks (h_matmul h x u nm) h.
+Proof. intros h' id E S. eapply sinv_matmul; eauto. Qed.
+
+Ltac schain :=
+  repeat (apply oks_bind; [|intros ? ?]);
+  first [apply oks_scale|apply oks_pow|apply oks_math|apply oks_unsqueeze|apply oks_matmul|apply oks_sum|apply oks_mean
+        |apply oks_arith|apply oks_elsel|apply oks_flatten].
+
+Lemma oks_fc h w b xs nm : oks (fc_forward h w b xs nm) h.
+Proof.
+  unfold fc_forward. destruct (oneInput xs) as [x|]; [|apply oks_fail; intros id; discriminate].
+  destruct (negb (rankOf h x =? 2)); [apply oks_fail; intros id; discriminate|].
+  apply oks_atomically. schain.
+Qed.
+
+Lemma oks_act ak h y : oks (act_forward ak h y) h.
+Proof.
+  destruct ak as [|m| | |dim]; cbn [act_forward].
+  - unfold relu_forward. cbn [oneInput]. apply oks_atomically. schain.
+  - unfold leaky_forward. cbn [oneInput]. apply oks_atomically. schain.
+  - unfold sigmoid_forward. cbn [oneInput]. apply oks_atomically. schain.
+  - unfold tanh_forward. cbn [oneInput]. apply oks_math.
+  - unfold softmax_forward. cbn [oneInput].
+    destruct (rankOf h y <=? dim); [apply oks_fail; intros id; discriminate|]. apply oks_atomically. schain.
+Qed.
+
+Lemma oks_clip h x l u : oks (clip h x l u) h.
+Proof. unfold clip. schain. Qed.
+
+Ltac schain2 :=
+  repeat (apply oks_bind; [|intros ? ?]);
+  first [apply oks_clip|apply oks_scale|apply oks_pow|apply oks_math|apply oks_sum|apply oks_mean|apply oks_arith|apply oks_elsel].
+
+Lemma oks_mse h yp yt nm : oks (mse_compute h yp yt nm) h.
+Proof.
+  unfold mse_compute. destruct (lossArgs1 h yp yt) as [[p t]|]; [|apply oks_fail; intros id; discriminate].
+  apply oks_atomically. schain2.
+Qed.
+Lemma oks_bce e1 e2 h yp yt nm : oks (bce_compute e1 e2 h yp yt nm) h.
+Proof.
+  unfold bce_compute. destruct (lossArgs1 h yp yt) as [[p t]|]; [|apply oks_fail; intros id; discriminate].
+  apply oks_atomically. schain2.
+Qed.
+Lemma oks_ce e1 e2 h yp yt nm : oks (ce_compute e1 e2 h yp yt nm) h.
+Proof.
+  unfold ce_compute. destruct yp as [p|]; [|apply oks_fail; intros id; discriminate].
+  destruct yt as [t|]; [|apply oks_fail; intros id; discriminate].
+  match goal with |- context [if ?c then _ else _] => destruct c end; [|apply oks_fail; intros id; discriminate].
+  apply oks_atomically. schain2.
+Qed.
+
+Lemma oks_loss eps ome lk h p t : oks (loss_forward eps ome lk h p t) h.
+Proof.
+  destruct lk; cbn [loss_forward].
+  - apply oks_bind; [apply oks_flatten|]. intros h1 pf. apply oks_mse.
+  - apply oks_bind; [apply oks_flatten|]. intros h1 pf. apply oks_bce.
+  - apply oks_ce.
+Qed.
+
+Theorem forward_loss_sinv eps ome ak lk (h : heap) w b x t h1 l :
+  sinv rd h -> forward_loss eps ome ak lk h w b x t = (h1, Ok l) -> sinv rd h1.
+Proof.
+  intros S E. revert h1 l E S. change (oks (forward_loss eps ome ak lk h w b x t) h).
+  unfold forward_loss. apply oks_bind; [apply oks_fc|]. intros h1 y.
+  apply oks_bind; [apply oks_act|]. intros h2 a. apply oks_loss.
+Qed.
+
+(* ---- the optimizer step and the resets ---- *)
+
+(* v = wv - lr * g, element by element, for a gradient of the shape of wv *)
+Definition upd_elem (lr : A) (wv g v : T) : Prop :=
+  shp (dims wv) g /\ shp (dims wv) v /\
+  forall idx, validIdx (dims wv) idx ->
+    exists a gx, get (data wv) idx = Some a /\ get (data g) idx = Some gx /\
+                 get (data v) idx = Some (ssub a (smul lr gx)).
+
+Lemma sgd_val_spec (lr : A) (wv g v : T) : wf wv -> shp (dims wv) g -> sgd_val lr wv g = Ok v -> upd_elem lr wv g v.
+Proof.
+  intros Wwv [Wg Ed] E. unfold sgd_val in E.
+  destruct (v_unary_spec (UScale lr) g Wg) as (delta & Edl & Hdd & Wd & Hgd). rewrite Edl in E. cbn [res_bind] in E.
+  destruct (CompP.v_arith_same_dims BiSub wv delta Wwv Wd ltac:(congruence)) as (r & Er & Hdr & Wr & Hgr).
+  rewrite Er in E. inversion E; subst r. split; [split; assumption|]. split; [split; assumption|].
+  intros idx Hv. destruct (get_wf A _ _ _ (proj1 Wwv) Hv) as (a & Ea).
+  assert (Hv' : validIdx (dims g) idx) by (rewrite Ed; exact Hv).
+  destruct (get_wf A _ _ _ (proj1 Wg) Hv') as (gx & Egx).
+  exists a, gx. split; [exact Ea|]. split; [exact Egx|].
+  rewrite Hgr by exact Hv. rewrite Hgd by exact Hv'. rewrite Ea, Egx. reflexivity.
+Qed.
+
+Lemma sinv_noedge (h : heap) v tr di nm : sinv rd h -> wf v -> sinv rd (h ++ [mkNode v tr di None [] nm]).
+Proof. intros S W. apply sinv_snoc; [exact S|exact W|reflexivity|intros e []]. Qed.
+
+Lemma sinv_nil : sinv rd [].
+Proof.
+  split; [apply hinv_nil|]. split; [|split].
+  - intros i v H. destruct i; discriminate.
+  - intros c e H. destruct c; destruct H.
+  - intros i g H. destruct i; discriminate.
+Qed.
+
+Lemma sinv_leaf (h : heap) v tr nm : sinv rd h -> wf v -> sinv rd (fst (leaf h v tr nm)).
+Proof. intros S W. rewrite leaf_eq. cbn [fst]. apply sinv_noedge; assumption. Qed.
+
+(* same values, fewer edges, fewer gradients *)
+Lemma sinv_sub (h h' : heap) : sinv rd h -> hinv h' -> (forall i, valOf h' i = valOf h i) ->
+  (forall c e, In e (edgesOf h' c) -> In e (edgesOf h c)) ->
+  (forall i g, gradOf h' i = Some g -> gradOf h i = Some g) -> sinv rd h'.
+Proof.
+  intros (HI & Vw & Ek & Gk) HI' V Ed G.
+  assert (DmE : forall i, Dm h' i = Dm h i) by (intros i; unfold Dm; rewrite V; reflexivity).
+  split; [exact HI'|]. split; [|split].
+  - intros i v Hv. rewrite V in Hv. eapply Vw; eauto.
+  - intros c e He. apply Ed in He. intros hh g Hv Hg Ev. rewrite DmE. apply (Ek c e He hh g).
+    + intros i Hi. rewrite Hv by exact Hi. apply V.
+    + intros gy Hgy. rewrite <- DmE. apply Hg. exact Hgy.
+    + exact Ev.
+  - intros i g Hg. rewrite DmE. apply Gk. apply G. exact Hg.
+Qed.
+
+Lemma sinv_reset (h : heap) x tr : sinv rd h -> sinv rd (h_reset h x tr).
+Proof.
+  intros S. destruct (h_reset_spec h x tr) as (Hl & Hs & Ho & He).
+  assert (Cases : forall i, nth_error (h_reset h x tr) i = nth_error h i \/
+            exists n, i = x /\ nth_error h x = Some n /\
+                      nth_error (h_reset h x tr) x = Some (mkNode (nval n) tr false None [] (nname n))).
+  { intros i. destruct (Nat.eq_dec i x) as [->|Hne]; [|left; apply Ho; exact Hne].
+    destruct (nth_error h x) as [n|] eqn:En.
+    - right. exists n. split; [reflexivity|]. split; [reflexivity|]. apply Hs. reflexivity.
+    - left. apply nth_error_None. rewrite Hl. apply nth_error_None. exact En. }
+  apply (sinv_sub h); [exact S| | | |].
+  - destruct S as ([W O] & _). split; [apply BackpropP.wf_heap_reset; exact W|apply BackpropP.rules_own_reset; exact O].
+  - intros i. apply valOf_erase_eq. exact He.
+  - intros c e Hin. destruct (Cases c) as [E|(n & -> & En & E)].
+    + unfold edgesOf in *. rewrite E in Hin. exact Hin.
+    + unfold edgesOf in Hin. rewrite E in Hin. destruct Hin.
+  - intros i g Hg. destruct (Cases i) as [E|(n & -> & En & E)].
+    + unfold gradOf in *. rewrite E in Hg. exact Hg.
+    + unfold gradOf in Hg. rewrite E in Hg. discriminate.
+Qed.
+
+(* ---- one iteration, with shapes ---- *)
+Theorem iter_shapes eps ome lr ak lk (h : heap) w b x t h' w' b' :
+  sinv rd h -> fresh h w -> fresh h b ->
+  train_iter rd eps ome lr ak lk h w b x t = (h', Ok (w', b')) ->
+  sinv rd h' /\
+  exists wv bv gW gB vW vB,
+    valOf h w = Some wv /\ valOf h b = Some bv /\
+    delivers rd eps ome ak lk h w b x t gW gB /\
+    valOf h' w' = Some vW /\ valOf h' b' = Some vB /\
+    upd_elem lr wv gW vW /\ upd_elem lr bv gB vB.
+Proof.
+  intros S Fw Fb E. pose proof S as (HI & _).
+  destruct (iter_no_leak rd eps ome lr ak lk h w b x t h' w' b' HI Fw Fb E)
+    as (_ & _ & _ & _ & _ & _ & _ & _ & gW & gB & Dl & (wv & vW & Vw & Sw & VW') & (bv & vB & Vb & Sb & VB')).
+  pose proof Dl as (h1 & l & h2 & log & EF & Tl & EB & Gw & Gb).
+  pose proof (forward_loss_sinv eps ome ak lk h w b x t h1 l S EF) as S1.
+  pose proof (bp_sinv rd h1 l h2 log (Ok tt) S1 EB) as S2.
+  destruct (okw_ok _ _ _ _ (forward_loss_okw eps ome ak lk h w b x t) EF) as (X1 & _ & _ & HI1).
+  destruct (bp_step rd idseal h1 l h2 log (Ok tt) (HI1 HI) EB) as (L2 & V2 & _).
+  pose proof (fresh_lt h w Fw) as Lw. pose proof (fresh_lt h b Fb) as Lb.
+  assert (Vw2 : valOf h2 w = Some wv).
+  { rewrite V2. destruct (acc_eq h h1 w w (ext_nth h h1 w X1 Lw)) as (-> & _). exact Vw. }
+  assert (Vb2 : valOf h2 b = Some bv).
+  { rewrite V2. destruct (acc_eq h h1 b b (ext_nth h h1 b X1 Lb)) as (-> & _). exact Vb. }
+  pose proof S2 as (_ & Vwf & _ & Gk).
+  pose proof (Gk w gW Gw) as SgW. rewrite (Dm_val _ _ _ Vw2) in SgW.
+  pose proof (Gk b gB Gb) as SgB. rewrite (Dm_val _ _ _ Vb2) in SgB.
+  pose proof (sgd_val_spec lr wv gW vW (Vwf _ _ Vw2) SgW Sw) as UW.
+  pose proof (sgd_val_spec lr bv gB vB (Vwf _ _ Vb2) SgB Sb) as UB.
+  split.
+  - (* the final heap: two edge-free nodes appended to h2, then two resets *)
+    unfold train_iter in E. rewrite EF, EB in E.
+    destruct (sgd_update h2 lr (Some w) None) as [h3 [w1| |]] eqn:ES1; try discriminate.
+    destruct (sgd_update h3 lr (Some b) None) as [h4 [b1| |]] eqn:ES2; try discriminate.
+    inversion E; subst h' w' b'. clear E.
+    apply sgd_ok_inv in ES1 as (wv2 & gW2 & vW2 & Vw' & Gw' & Sw' & -> & ->).
+    assert (wv2 = wv) by congruence. assert (gW2 = gW) by congruence. subst wv2 gW2.
+    assert (vW2 = vW) by congruence. subst vW2.
+    pose proof (sinv_noedge h2 vW false true None S2 (proj1 (proj1 (proj2 UW)))) as S3.
+    apply sgd_ok_inv in ES2 as (bv2 & gB2 & vB2 & Vb' & Gb' & Sb' & -> & ->).
+    assert (Lb2 : b < length h2) by (rewrite L2; pose proof (extends_length _ _ X1); lia).
+    rewrite valOf_app in Vb' by exact Lb2.
+    unfold gradOf in Gb'. rewrite nth_error_app1 in Gb' by exact Lb2. fold (gradOf h2 b) in Gb'.
+    assert (bv2 = bv) by congruence. assert (gB2 = gB) by congruence. subst bv2 gB2.
+    assert (vB2 = vB) by congruence. subst vB2.
+    pose proof (sinv_noedge _ vB false true None S3 (proj1 (proj1 (proj2 UB)))) as S4.
+    apply sinv_reset, sinv_reset. exact S4.
+  - exists wv, bv, gW, gB, vW, vB. split; [exact Vw|]. split; [exact Vb|]. split; [exact Dl|].
+    split; [exact VW'|]. split; [exact VB'|]. split; [exact UW|exact UB].
+Qed.
+
+(* ---- any number of iterations, with shapes ---- *)
+Inductive TrajE (eps ome lr : A) (ak : actK) (lk : lossK)
+  : heap -> nat -> nat -> list (nat * nat) -> heap -> nat -> nat -> Prop :=
+| TrajE_nil h w b : TrajE eps ome lr ak lk h w b [] h w b
+| TrajE_cons h w b x t rest h1 w1 b1 hE wE bE gW gB wv bv vW vB :
+    train_iter rd eps ome lr ak lk h w b x t = (h1, Ok (w1, b1)) ->
+    delivers rd eps ome ak lk h w b x t gW gB ->
+    valOf h w = Some wv -> valOf h b = Some bv -> valOf h1 w1 = Some vW -> valOf h1 b1 = Some vB ->
+    upd_elem lr wv gW vW -> upd_elem lr bv gB vB ->
+    TrajE eps ome lr ak lk h1 w1 b1 rest hE wE bE ->
+    TrajE eps ome lr ak lk h w b ((x, t) :: rest) hE wE bE.
+
+Theorem train_trajectory_shapes eps ome lr ak lk batches : forall (h : heap) w b h' w' b',
+  sinv rd h -> fresh h w -> fresh h b ->
+  train rd eps ome lr ak lk h w b batches = (h', Ok (w', b')) ->
+  TrajE eps ome lr ak lk h w b batches h' w' b' /\ sinv rd h' /\ fresh h' w' /\ fresh h' b' /\
+  exists wv bv wvE bvE, valOf h w = Some wv /\ valOf h b = Some bv /\
+    valOf h' w' = Some wvE /\ valOf h' b' = Some bvE /\
+    wf wvE /\ wf bvE /\ dims wvE = dims wv /\ dims bvE = dims bv.
+Proof.
+  induction batches as [|[x t] rest IH]; intros h w b h' w' b' S Fw Fb E.
+  - cbn [train] in E. inversion E as [[Eh Ew Eb]]. subst h' w' b'.
+    split; [constructor|]. split; [exact S|]. split; [exact Fw|]. split; [exact Fb|].
+    destruct (lt_nth_some h w (fresh_lt _ _ Fw)) as [nw Hnw]. destruct (lt_nth_some h b (fresh_lt _ _ Fb)) as [nb Hnb].
+    assert (Vw : valOf h w = Some (nval nw)) by (unfold valOf; rewrite Hnw; reflexivity).
+    assert (Vb : valOf h b = Some (nval nb)) by (unfold valOf; rewrite Hnb; reflexivity).
+    destruct S as (_ & Vwf & _).
+    exists (nval nw), (nval nb), (nval nw), (nval nb).
+    split; [exact Vw|]. split; [exact Vb|]. split; [exact Vw|]. split; [exact Vb|].
+    split; [eapply Vwf; exact Vw|]. split; [eapply Vwf; exact Vb|]. split; reflexivity.
+  - cbn [train] in E.
+    destruct (train_iter rd eps ome lr ak lk h w b x t) as [h1 [[w1 b1]| |]] eqn:EI; try discriminate.
+    destruct (iter_shapes eps ome lr ak lk h w b x t h1 w1 b1 S Fw Fb EI)
+      as (S1 & wv & bv & gW & gB & vW & vB & Vw & Vb & Dl & VW1 & VB1 & UW & UB).
+    destruct (iter_no_leak rd eps ome lr ak lk h w b x t h1 w1 b1 (proj1 S) Fw Fb EI) as (F1 & F2 & _).
+    destruct (IH h1 w1 b1 h' w' b' S1 F1 F2 E)
+      as (Tr & S' & F1' & F2' & wv1 & bv1 & wvE & bvE & Vw1 & Vb1 & VwE & VbE & WwE & WbE & DwE & DbE).
+    assert (wv1 = vW) by congruence. assert (bv1 = vB) by congruence. subst wv1 bv1.
+    split; [econstructor; eauto|]. split; [exact S'|]. split; [exact F1'|]. split; [exact F2'|].
+    exists wv, bv, wvE, bvE. repeat (split; [assumption|]).
+    destruct UW as (_ & [_ DW] & _). destruct UB as (_ & [_ DB] & _). split; congruence.
+Qed.
+
+End ShapeLoop.
+
+(* ====================================================================================== *)
+(*  PART III.  non-vacuity, on the throw-away [Scalar Z] of CompP.v                        *)
+(* ====================================================================================== *)
+Module TrainExamples.
+Import CompExamples.
+Local Open Scope nat_scope.
+
+Definition mk1 (l : list Z) : tensor Z := mkT [length l] (Vec (map Sc l)).
+Definition tW : tensor Z := mk1 [2; 3]%Z.
+Definition tB : tensor Z := mk1 [10; 20]%Z.
+Definition tX : tensor Z := mkT [1%nat; 3%nat] (Vec [Vec [Sc 1; Sc 2; Sc 3]])%Z.
+Definition tT : tensor Z := mk1 [5; 7]%Z.
+Definition tW1 : tensor Z := mk1 [2]%Z.
+Definition tB1 : tensor Z := mk1 [10]%Z.
+Definition tT1 : tensor Z := mk1 [5]%Z.
+Lemma wf_tW : wf tW. Proof. split; [apply wfndb_spec; reflexivity|repeat constructor]. Qed.
+Lemma wf_tB : wf tB. Proof. split; [apply wfndb_spec; reflexivity|repeat constructor]. Qed.
+Lemma wf_tX : wf tX. Proof. split; [apply wfndb_spec; reflexivity|repeat constructor]. Qed.
+Lemma wf_tT : wf tT. Proof. split; [apply wfndb_spec; reflexivity|repeat constructor]. Qed.
+Lemma wf_tW1 : wf tW1. Proof. split; [apply wfndb_spec; reflexivity|repeat constructor]. Qed.
+Lemma wf_tB1 : wf tB1. Proof. split; [apply wfndb_spec; reflexivity|repeat constructor]. Qed.
+Lemma wf_tT1 : wf tT1. Proof. split; [apply wfndb_spec; reflexivity|repeat constructor]. Qed.
+
+(* weight 0 and bias 1 as the initializers return them (tracked leaves); input 2 and target 3 *)
+Definition mkHeap (w b x t : tensor Z) : @heap Z :=
+  fst (leaf (fst (leaf (fst (leaf (fst (leaf [] w true None)) b true None)) x false None)) t false None).
+Definition h0 : @heap Z := mkHeap tW tB tX tT.        (* FC with O = 2, x : [1,3] *)
+Definition g0 : @heap Z := mkHeap tW1 tB1 tX tT1.     (* FC with O = 1: a non-zero integer gradient *)
+
+(* a heap built by API calls satisfies the hypotheses of every theorem of this file *)
+Lemma mkHeap_sinv rd w b x t : wf w -> wf b -> wf x -> wf t -> sinv rd (mkHeap w b x t).
+Proof. intros Hw Hb Hx Ht. unfold mkHeap. repeat (apply sinv_leaf; [|assumption]). apply sinv_nil. Qed.
+
+Lemma mkHeap_roles w b x t :
+  fresh (mkHeap w b x t) 0 /\ fresh (mkHeap w b x t) 1 /\ datum (mkHeap w b x t) 2 /\ datum (mkHeap w b x t) 3.
+Proof. unfold fresh, datum. cbn. repeat split; lia. Qed.
+
+Example ex_sinv rd : sinv rd h0.
+Proof. apply mkHeap_sinv; [apply wf_tW|apply wf_tB|apply wf_tX|apply wf_tT]. Qed.
+
+(* 1. one iteration of FC([2]) -> Tanh -> MSE on x : [1,3] succeeds and yields fresh weights *)
+Definition it1 := train_iter RedSum 0%Z 1%Z 1%Z KTanh KMse h0 0 1 2 3.
+
+Example ex_iter_run : snd it1 = Ok (20, 21) /\ length (fst it1) = 22.
+Proof. vm_compute. auto. Qed.
+
+Example ex_iter_thm :
+  exists h', train_iter RedSum 0%Z 1%Z 1%Z KTanh KMse h0 0 1 2 3 = (h', Ok (20, 21)) /\
+    fresh h' 20 /\ fresh h' 21 /\ datum h' 2 /\ datum h' 3 /\ sinv RedSum h' /\
+    exists vW vB, valOf h' 20 = Some vW /\ valOf h' 21 = Some vB /\ dims vW = [2] /\ dims vB = [2].
+Proof.
+  exists (fst it1).
+  assert (E : train_iter RedSum 0%Z 1%Z 1%Z KTanh KMse h0 0 1 2 3 = (fst it1, Ok (20, 21))) by (vm_compute; reflexivity).
+  destruct (mkHeap_roles tW tB tX tT) as (F0 & F1 & D2 & D3). fold h0 in F0, F1, D2, D3.
+  destruct (iter_no_leak RedSum 0%Z 1%Z 1%Z KTanh KMse h0 0 1 2 3 _ _ _ (proj1 (ex_sinv RedSum)) F0 F1 E)
+    as (A1 & A2 & _ & _ & _ & _ & _ & AD & _).
+  destruct (iter_shapes RedSum 0%Z 1%Z 1%Z KTanh KMse h0 0 1 2 3 _ _ _ (ex_sinv RedSum) F0 F1 E)
+    as (S & wv & bv & gW & gB & vW & vB & Vw & Vb & _ & VW & VB & (_ & [_ DW] & _) & (_ & [_ DB] & _)).
+  split; [exact E|]. split; [exact A1|]. split; [exact A2|]. split; [apply AD; exact D2|]. split; [apply AD; exact D3|].
+  split; [exact S|]. exists vW, vB. split; [exact VW|]. split; [exact VB|].
+  change (Some tW = Some wv) in Vw. change (Some tB = Some bv) in Vb. inversion Vw; subst wv. inversion Vb; subst bv.
+  split; [exact DW|exact DB].
+Qed.
+
+(* 2. the update really is  w - lr * g : O = 1, Relu, MSE, lr = 3;  dLoss/dw = 204, dLoss/db = 34 *)
+Definition it2 := train_iter RedSum 0%Z 1%Z 3%Z KRelu KMse g0 0 1 2 3.
+
+Example ex_update :
+  snd it2 = Ok (21, 22) /\
+  valOf (fst it2) 21 = Some (mk1 [2 - 3 * 204]%Z) /\ valOf (fst it2) 22 = Some (mk1 [10 - 3 * 34]%Z) /\
+  fresh (fst it2) 21 /\ fresh (fst it2) 22 /\
+  (* the spent tensors of this step keep their gradients and flags; they are not used again *)
+  gradOf (fst it2) 0 = Some (mk1 [204]%Z) /\ gradOf (fst it2) 1 = Some (mk1 [34]%Z) /\
+  dirtyOf (fst it2) 0 = true /\ dirtyOf (fst it2) 1 = true /\
+  (* the old values are still there *)
+  valOf (fst it2) 0 = Some tW1 /\ valOf (fst it2) 1 = Some tB1.
+Proof. vm_compute. repeat split. Qed.
+
+(* 3. three steps: the trajectory theorem applies, shapes are kept *)
+Example ex_train :
+  exists h' w' b', train RedSum 0%Z 1%Z 3%Z KRelu KMse g0 0 1 [(2, 3); (2, 3); (2, 3)] = (h', Ok (w', b')) /\
+    TrajE RedSum 0%Z 1%Z 3%Z KRelu KMse g0 0 1 [(2, 3); (2, 3); (2, 3)] h' w' b' /\
+    fresh h' w' /\ fresh h' b' /\
+    exists wvE bvE, valOf h' w' = Some wvE /\ valOf h' b' = Some bvE /\ dims wvE = [1] /\ dims bvE = [1].
+Proof.
+  destruct (train RedSum 0%Z 1%Z 3%Z KRelu KMse g0 0 1 [(2, 3); (2, 3); (2, 3)]) as [h' [[w' b']| |]] eqn:E;
+    [|vm_compute in E; discriminate|vm_compute in E; discriminate].
+  exists h', w', b'. split; [reflexivity|].
+  destruct (mkHeap_roles tW1 tB1 tX tT1) as (F0 & F1 & _). fold g0 in F0, F1.
+  assert (S : sinv RedSum g0) by (apply mkHeap_sinv; [apply wf_tW1|apply wf_tB1|apply wf_tX|apply wf_tT1]).
+  destruct (train_trajectory_shapes RedSum 0%Z 1%Z 3%Z KRelu KMse _ g0 0 1 h' w' b' S F0 F1 E)
+    as (Tr & _ & F0' & F1' & wv & bv & wvE & bvE & Vw & Vb & VwE & VbE & _ & _ & DW & DB).
+  split; [exact Tr|]. split; [exact F0'|]. split; [exact F1'|].
+  exists wvE, bvE. split; [exact VwE|]. split; [exact VbE|].
+  change (Some tW1 = Some wv) in Vw. change (Some tB1 = Some bv) in Vb. inversion Vw; subst wv. inversion Vb; subst bv.
+  split; [exact DW|exact DB].
+Qed.
+
+(* 4. the reset forgotten: the loop body returns spent tensors, the next iteration is an error
+      raised by the update of the weight (the loss is untracked, back-propagation does nothing) *)
+Definition nr := train_iter_noreset RedSum 0%Z 1%Z 3%Z KRelu KMse g0 0 1 2 3.
+
+Example ex_noreset :
+  snd nr = Ok (21, 22) /\ spentN (fst nr) 21 /\ spentN (fst nr) 22 /\
+  snd (train_iter RedSum 0%Z 1%Z 3%Z KRelu KMse (fst nr) 21 22 2 3) = Err /\
+  snd (train_iter_noreset RedSum 0%Z 1%Z 3%Z KRelu KMse (fst nr) 21 22 2 3) = Err /\
+  exists h1 l, forward_loss 0%Z 1%Z KRelu KMse (fst nr) 21 22 2 3 = (h1, Ok l) /\ trackedOf h1 l = false /\
+               bp_topo RedSum (fun _ g => g) h1 l = (h1, [], Ok tt) /\
+               sgd_update h1 3%Z (Some 21) None = (h1, Err).
+Proof.
+  split; [vm_compute; reflexivity|]. split; [vm_compute; auto|]. split; [vm_compute; auto|].
+  split; [vm_compute; reflexivity|]. split; [vm_compute; reflexivity|].
+  eexists (fst (forward_loss 0%Z 1%Z KRelu KMse (fst nr) 21 22 2 3)), 39. vm_compute. auto.
+Qed.
+
+(* the same through the theorem *)
+Example ex_noreset_thm x2 t2 h1 l :
+  forward_loss 0%Z 1%Z KRelu KMse (fst nr) 21 22 x2 t2 = (h1, Ok l) ->
+  train_iter RedSum 0%Z 1%Z 3%Z KRelu KMse (fst nr) 21 22 x2 t2 = (h1, Err).
+Proof.
+  assert (E : train_iter_noreset RedSum 0%Z 1%Z 3%Z KRelu KMse g0 0 1 2 3 = (fst nr, Ok (21, 22))) by (vm_compute; reflexivity).
+  destruct (noreset_next_errors RedSum 0%Z 1%Z 3%Z KRelu KMse g0 0 1 2 3 _ _ _ E) as (_ & _ & H).
+  intros EF. apply (H x2 t2 h1 l EF).
+Qed.
+
+End TrainExamples.
+
 Print Assumptions sgd_update_spec.
+Print Assumptions sgd_update_nograd.
 Print Assumptions reset_fresh.
 Print Assumptions spent_forward_untracked.
-Print Assumptions missing_reset_errors.
 Print Assumptions train_iter_spent.
+Print Assumptions missing_reset_errors.
 Print Assumptions noreset_next_errors.
 Print Assumptions iter_no_leak.
 Print Assumptions train_trajectory.
+Print Assumptions bp_sinv.
+Print Assumptions forward_loss_sinv.
+Print Assumptions iter_shapes.
+Print Assumptions train_trajectory_shapes.
+Print Assumptions TrainExamples.ex_iter_thm.
+Print Assumptions TrainExamples.ex_train.
